@@ -7,7 +7,7 @@
                  'R' : orientation := (orientation*R2G + x(i)/10000)*G2R,  'Y' : nothing;
                  with the macros as written in float.h (R2G = 200.0/M_PI, G2R = M_PI/200.0, unparenthesised);
   * `pol*`     : TestLinearizationVisitor::visit — the positional misclosure [mm] of Distance, Direction,
-                 Angle, S_Distance; every other type (H_Diff, Z_Angle, X, Y, Z, Xdiff, Ydiff, Zdiff,
+                 Angle, S_Distance and (since fix 45be66f) Z_Angle; every other type (H_Diff, X, Y, Z, Xdiff, Ydiff, Zdiff,
                  Azimuth, and everything in a Coordinates cluster) gives 0;
   * `testLin`  : TestLinearization — `max |pol| >= 0.0005`;
   The absolute terms (rhs) are NOT modelled here: the fixed-point theorems use C05's generated
@@ -82,6 +82,16 @@ def polAngle (fuel : Nat) (val v sx sy cx cy cx2 cy2 : K) : K :=
 
 def polSDistance (val v dx dy dz : K) : K :=
   (val + v / thousand - sqrt (dx * dx + dy * dy + dz * dz)) * thousand
+
+/-- TestLinearizationVisitor::visit(Z_Angle*) (fix 45be66f): dx, dy, dz = from − to of the corrected
+    coordinates; `za = acos(-dz/slope)`, second face `value > π ⇒ 2π − za`; slope 0 ⇒ 0 -/
+def polZAngle (fuel : Nat) (val v dx dy dz : K) : K :=
+  let slope := sqrt (dx * dx + dy * dy + dz * dz)
+  if beq slope 0 then 0
+  else
+    let za0 := acos (-dz / slope)
+    let za := if (pi : K) < val then twoPi - za0 else za0
+    wrap fuel (val + cc2r v - za) * slope * thousand
 
 /-- observation kinds as TestLinearization sees them, with their pol -/
 inductive ObsKind where
